@@ -3,7 +3,7 @@ P = {
     "level_note": "Trusted: Lean kernel; hand-written model Spine.Snd/Spine.Ctr; harness; A-hash (SHA-256 injective), A-lru (library modelled), A-atomic. Concurrent uniqueness is proved on the event-sourced model and only monitored (not explored exhaustively) on the real code.",
     "props_modules": ["Spine.Props.C13"],
     "drivers": ["drv_snd"],
-    "tests": [{"name": "TestSender"}],
+    "tests": [{"name": "TestSender"}, {"name": "TestSenderWorld"}],
     "trusted_base": [
         "model Spine.Snd / Spine.Ctr written by hand from spine/send.go; SHA-256 of destination+command modelled as an injective id (A-hash); golanguzb70/lrucache modelled as a 3-line list model read from its source (A-lru); atomic.AddUint64 as atomic fetch-add (A-atomic)",
     ],
